@@ -24,7 +24,8 @@ META = dict(
 )
 MODULE = "OPM.Properties.C38"
 REQUIRED = ["OPM.C38.engineId_injective", "OPM.C38.distinct_pairs_distinct_ids", "OPM.C38.no_takeover",
-            "OPM.C38.accepted_distinct"]
+            "OPM.C38.accepted_distinct", "OPM.C38.no_takeover_history", "OPM.C38.owned_id_refused",
+            "OPM.C38.registrations_refused_while_connected", "OPM.C38.keysNodup_run"]
 ALPHABET = ["a", "_", "%", "/", " ", "é", "5", "F", "~", "€"]
 
 
@@ -55,7 +56,134 @@ def gen_pairs(ctx: Check) -> list[list[str]]:
         def w():
             return "".join(rng.choice(ALPHABET + [chr(rng.randrange(32, 0x2FFF))]) for _ in range(rng.randrange(0, 8)))
         pairs.append([w(), w()])
+    # case variants and long names that differ only in their tail (an id that folds case or truncates collides here)
+    for a, b in (("A", "a"), ("Ab", "aB"), ("É", "é")):
+        pairs += [[a, "u"], [b, "u"], ["c", a], ["c", b]]
+    for k in (20, 40, 64, 100, 128, 200, 255, 300):
+        pairs += [["x" * k + "a", "u"], ["x" * k + "b", "u"], ["c", "y" * k + "a"], ["c", "y" * k + "b"]]
     return pairs
+
+
+class _Channel:
+    """Stand-in for fastapi_websocket_rpc.RpcChannel: reports an engine id over rpc, records close()."""
+    def __init__(self, n: int, engine_id: str | None):
+        from fastapi_websocket_rpc.schemas import RpcResponse
+        self.n, self.closed = n, False
+        outer = self
+
+        class Other:
+            async def get_engine_id_async(self):
+                return RpcResponse(result=engine_id, result_type=None)
+        self.other = Other()
+        self.default_response_timeout = None
+
+    async def close(self):
+        self.closed = True
+
+
+def gen_histories(ctx: Check, pairs) -> list[dict]:
+    rng = ctx.rng
+    out = []
+    # engines: a few name pairs, among them the pairs that collided before the id fix
+    pool = [["a_b", "c"], ["a", "b_c"], ["x", "y"], ["x%", "y"], ["", "_"]]
+    for _ in range(ctx.n(400, 6000)):
+        engines = [rng.choice(pool) if rng.random() < 0.7 else rng.choice(pairs) for _ in range(rng.randrange(1, 4))]
+        ops, nch = [], 0
+        for _ in range(rng.randrange(2, 12)):
+            r = rng.random()
+            if r < 0.35:
+                e = rng.choice(engines)
+                ops.append(["regs", rng.random() < 0.9, rng.random() < 0.8, rng.random() < 0.5, e[0], e[1]])
+            elif r < 0.75:
+                nch += 1
+                e = rng.choice(engines)
+                ops.append(["conn", nch, None if rng.random() < 0.05 else e])
+            elif nch:
+                ops.append(["disc", rng.randrange(1, nch + 2)])
+        out.append({"ops": ops})
+    return out
+
+
+def hist_lines(h) -> list[str]:
+    agg = _aggregator()
+    lines = []
+    for op in h["ops"]:
+        if op[0] == "regs":
+            lines.append(f"regs\t{encb(op[1])}\t{encb(op[2])}\t{encb(op[3])}\t{enc(op[4])}\t{enc(op[5])}")
+        elif op[0] == "conn":
+            # the id a websocket reports is the one its registration was given (create_engine_id itself is tied
+            # by the engine-id stream)
+            i = "N" if op[2] is None else enc(agg.create_engine_id(_msg(op[2][0], op[2][1])))
+            lines.append(f"conn\t{op[1]}\t{i}")
+        else:
+            lines.append(f"disc\t{op[1]}")
+    return lines
+
+
+def run_history(h) -> list[str]:
+    from openpectus.aggregator.aggregator_message_handlers import AggregatorMessageHandlers
+    a = _aggregator()
+    a.from_engine.register_engine_data = Mock()
+    a.from_engine.engine_connected = Mock()
+    a.from_engine.engine_disconnected = Mock()
+    hd = AggregatorMessageHandlers(a)
+    d = a.dispatcher
+    chans: dict[int, _Channel] = {}
+    outs = []
+    loop = asyncio.new_event_loop()
+    try:
+        for op in h["ops"]:
+            if op[0] == "regs":
+                m = _msg(op[4], op[5], "s" if op[1] else "wrong", None if op[2] else "0.0.0-other", op[3])
+                rep = loop.run_until_complete(hd.handle_RegisterEngineMsg(m))
+                o = "secret" if not rep.secret_match else \
+                    ("ok\t" if rep.success else "refused\t") + enc(rep.engine_id or "")
+            elif op[0] == "conn":
+                i = None if op[2] is None else a.create_engine_id(_msg(op[2][0], op[2][1]))
+                ch = chans[op[1]] = _Channel(op[1], i)
+                loop.run_until_complete(d._on_delayed_client_connect(ch))   # type: ignore
+                o = "closed" if ch.closed else "connected\t" + enc(i or "")
+            else:
+                ch = chans.get(op[1]) or _Channel(op[1], None)
+                before = dict(d._engine_id_channel_map)
+                loop.run_until_complete(d.on_client_disconnect(ch))   # type: ignore
+                gone = [k for k in before if k not in d._engine_id_channel_map]
+                o = "disconnected\t" + enc(gone[0]) if gone else "unknown"
+            table = ";".join(f"{enc(k)}:{v.n}" for k, v in d._engine_id_channel_map.items())
+            outs.append(o + "|" + table)
+    finally:
+        loop.close()
+    return outs
+
+
+def history_oracle(h, outs) -> Failure | None:
+    """C38, second clause, over the implementation's own answers: while an id is connected through a
+    channel, it stays with that channel until that channel disconnects, and no registration for it succeeds."""
+    agg = _aggregator()
+    owner: dict[str, int] = {}       # the oracle's own ledger: id -> channel that connected first and is still up
+    for op, o in zip(h["ops"], outs):
+        head, _, table = o.partition("|")
+        tab = dict((x.split(":")[0], int(x.split(":")[1])) for x in table.split(";") if x)
+        if op[0] == "regs":
+            i = enc(agg.create_engine_id(_msg(op[4], op[5])))
+            if i in owner and head.startswith("ok"):
+                return Failure("takeover-of-connected-id", h, f"registration for connected id accepted at op {op}")
+        elif op[0] == "conn" and op[2] is not None:
+            i = enc(agg.create_engine_id(_msg(op[2][0], op[2][1])))
+            if i not in owner:
+                if head.startswith("connected"):
+                    owner[i] = op[1]
+            elif head.startswith("connected"):
+                return Failure("takeover-of-connected-id:second-websocket", h,
+                               f"a second websocket became the owner of a connected id at op {op}")
+        elif op[0] == "disc":
+            for k in [k for k, v in owner.items() if v == op[1]]:
+                del owner[k]
+        for k, v in owner.items():
+            if tab.get(k) != v:
+                return Failure("takeover-of-connected-id:owner-changed", h,
+                               f"id {k} was connected through channel {v}, table now says {tab.get(k)} after op {op}")
+    return None
 
 
 def run(ctx: Check) -> int:
@@ -107,6 +235,18 @@ def run(ctx: Check) -> int:
 
     ctx.correspond("register", "EngineId", regs, reg_line, impl_reg,
                    nontrivial=lambda r, o: bool(r["connected"]))
+
+    # websocket-table histories: registrations, connects (a websocket reporting an id) and disconnects through
+    # the real AggregatorDispatcher + AggregatorMessageHandlers
+    hists = gen_histories(ctx, pairs)
+    hout, _ = ctx.correspond("ws-history", "EngineId", hists, hist_lines, run_history,
+                             nontrivial=lambda h, o: any(x.startswith("refused") or x.startswith("closed") for x in o))
+    for h, o in zip(hists, hout):
+        f = history_oracle(h, o)
+        if f is not None:
+            ctx.fail(f)
+        for op in h["ops"]:
+            ctx.count("hist-op:" + op[0])
 
     # property oracle on the implementation, independent of the model: collisions among generated pairs
     seen: dict[str, list[str]] = {}
